@@ -366,8 +366,15 @@ class Trace:
         if k == "call":
             _, send, types, ap, st, tmo = a
             msgs = tuple(self._cls(s)() for s in send)
-            t = self.loop.create_task(c.send_messages_await_response_complex(
-                msgs, self._pred(ap), self._pred(st), tuple(self._cls(x) for x in types), tmo / 1024.0))
+            self.n_calls = getattr(self, "n_calls", 0) + 1
+            if len(send) == 1 and len(types) == 1 and ap == "any" and st == "any" and self.n_calls % 2 == 0:
+                # every other plain request goes through the single-response entry point (same call in the model)
+                async def one(msg=msgs[0], cls=self._cls(types[0]), tmo=tmo):
+                    return [await c.send_message_await_response(msg, cls, tmo / 1024.0)]
+                t = self.loop.create_task(one())
+            else:
+                t = self.loop.create_task(c.send_messages_await_response_complex(
+                    msgs, self._pred(ap), self._pred(st), tuple(self._cls(x) for x in types), tmo / 1024.0))
             self.tasks[t] = "C?"
             self.first_label[t] = "call:%s:%s:%s:%s:%d" % (",".join(map(str, send)) or "-", ",".join(map(str, types)) or "-", ap, st, tmo)
             return None
